@@ -8,9 +8,10 @@ or a reset that is forgotten changes the translation of some history.
 """
 
 
-def D(id, text, deps=(), decls=None, tva=4, fwd=0, istype=False, locals=()):
+def D(id, text, deps=(), decls=None, tva=4, fwd=0, istype=False, locals=(), after=()):
+    """after: definitions that must come EARLIER than this one when both are present (an ordering constraint, not a reference)"""
     return {"id": id, "text": text.strip("\n") + "\n", "deps": list(deps), "decls": decls or ("^%s$" % id), "tva": tva, "fwd": fwd,
-            "istype": istype, "locals": list(locals)}
+            "istype": istype, "locals": list(locals), "after": list(after)}
 
 
 def type_decls(*names):
@@ -76,6 +77,25 @@ def collide():
     ]}
 
 
+def samefields():
+    """record types with the same field-name set: a literal without a type name denotes the alphabetically first of the record types
+    DECLARED SO FAR that have exactly its fields (fc/parse_state.fo scLookupRecFacCur), so it refers to all of them.  origin is
+    written before Cell exists (ordering constraint), mk after both; neither refers to the other, and kOf never refers to Kb"""
+    return {"name": "samefields", "imports": ["frt"], "defs": [
+        D("Point", "type Point = {X: int; Y: int}", decls="^Point$", istype=True, tva=0),
+        D("origin", "let origin () =\n  {X=0; Y=0}", deps=["Point"]),
+        D("shift", "let shift (p:Point) =\n  {X=p.X + 1; Y=p.Y}", deps=["Point"], locals=["p"]),
+        D("Cell", "type Cell = {X: int; Y: int}", decls="^Cell$", istype=True, tva=0, after=["origin", "shift"]),
+        D("mk", "let mk (a:int) (b:int) =\n  {X=a; Y=b}", deps=["Point", "Cell"], locals=["a", "b"]),
+        D("cellSum", "let cellSum (c:Cell) =\n  c.X + c.Y", deps=["Cell"], locals=["c"]),
+        D("both", "let both (n:int) =\n  (mk n n, origin ())", deps=["mk", "origin"], locals=["n"]),
+        D("Ka", "type Ka = {K: string}", decls="^Ka$", istype=True, tva=0),
+        D("Kb", "type Kb = {K: string}", decls="^Kb$", istype=True, tva=0),
+        D("kOf", "let kOf (s:string) =\n  {K=s}", deps=["Ka"], locals=["s"]),
+        D("kbLen", "let kbLen (k:Kb) =\n  k.K", deps=["Kb"], locals=["k"]),
+    ]}
+
+
 def filler_type(i, refs=9):
     """an unrelated type group with `refs` forward references"""
     names = ["F%d_%d" % (i, k) for k in range(refs + 1)]
@@ -104,7 +124,7 @@ def with_fillers(pkg, ntypes, nfuns):
 
 
 def packages(tier):
-    ps = [shapes(), groups(), collide()]
+    ps = [shapes(), groups(), collide(), samefields()]
     ps.append(with_fillers(groups(), 13, 0))       # > 100 forward references over the run
     ps.append(with_fillers(shapes(), 0, 6))        # > 100 inference variables over the run
     return ps
